@@ -44,6 +44,9 @@ def stepFamilies (st : St) (cmd : List String) (got : String) : St × Verdict :=
   match stepL2R64 st cmd got with
   | some r => r
   | none =>
+  match stepL2R64Q st cmd got with
+  | some r => r
+  | none =>
   match stepL2Par st cmd got with
   | some r => r
   | none =>
@@ -80,7 +83,7 @@ def stepAll (st : St) (cmd : List String) (got : String) : St × Verdict :=
 def pureQueries : List String :=
   ["card", "empty", "has", "min", "max", "rank", "sel", "cir", "iwi", "eq", "toarr", "toexarr", "nv", "pv", "nav", "pav",
    "andcard", "orcard", "isect", "wf", "size", "ser", "rd", "wrfail", "wrfailall", "rdsplit", "trunc", "chkeq", "dump", "dig", "kern", "kernwf", "popcnt", "dense", "densechk", "safe", "zdetach", "zsame", "frz", "frzsmall", "frzwfail", "fchk", "fgc",
-   "sermany64", "aggmany", "sched", "concdec", "concagg", "concagg64", "bplanes", "hasnext", "peek?", "peek!", "iterate", "values", "backward", "unset", "ranges", "l2lazy", "l2dense", "l2ser64", "l2q", "l2q2", "l2cksum", "l2toarr", "l2toex", "l2stats", "l2iterate", "l2seq", "l2ranges", "hasnext64", "peek64", "bcmpabs"]
+   "sermany64", "aggmany", "sched", "concdec", "concagg", "concagg64", "bplanes", "hasnext", "peek?", "peek!", "iterate", "values", "backward", "unset", "ranges", "l2lazy", "l2dense", "l2ser64", "l2q", "l2q2", "l2cksum", "l2toarr", "l2toex", "l2stats", "l2iterate", "l2seq", "l2ranges", "hasnext64", "peek64", "bcmpabs", "l2q64"]
 
 def aggOps : List String := ["fastor", "fastand", "heapor", "heapxor", "paror", "parand", "parheapor", "andany"]
 
